@@ -97,6 +97,18 @@ def case_s(draw):
             actions.append({"tx": draw(st.integers(t0, ntx - 1)), "frac": draw(fracs),
                             "kind": draw(st.sampled_from(["probe", "probe", "refresh", "up_to_date", "probe", "close"])),
                             "who": draw(st.integers(0, 5)), "lag": 1})
+    if draw(st.booleans()):
+        # tail: a searcher opened now lives through two delete-only, non-merging commits that hit the same old segment
+        # and is refreshed after each of them
+        first_adds = [op[1]["k"] for op in hist["txs"][0]["ops"] if op[0] == "add"] if hist["txs"][0].get("end") == "commit" else []
+        if len(first_adds) >= 2:
+            n0 = len(hist["txs"])
+            for key in first_adds[:2]:
+                hist["txs"].append({"ops": [["delk", key]], "end": "commit", "merge": False, "optimize": False, "blocklimit": 128})
+            actions.append({"tx": n0 - 1, "frac": 1.0, "kind": "open", "who": 0, "lag": 1})
+            for t in (n0, n0 + 1):
+                for who in (0, 1, 2, 3):
+                    actions.append({"tx": t, "frac": 1.0, "kind": "refresh", "who": who, "lag": 1})
     return {"hist": hist, "actions": actions,
             "store": draw(st.sampled_from(["file", "file_nommap", "ram"])),
             "compound": draw(st.booleans()),
